@@ -6,6 +6,9 @@ let run_job (job : Sx.t) : string =
   | "regalloc" -> Jcirc.job_regalloc job
   | "builder" -> Jbuilder.job_builder job
   | "literal" -> Jlit.job_literal job
+  | "sem" -> Jprog.job_sem job
+  | "bristol-out" -> Jbristol.job_bristol_out job
+  | "bristol-in" -> Jbristol.job_bristol_in job
   | "exhaust" -> Jexhaust.job_exhaust job
   | "witness" -> Jexhaust.job_witness job
   | "reps" -> Jexhaust.job_reps job
